@@ -20,7 +20,8 @@ REG.klass("Config", B + "backtesting.config.Config",
                   "_pair_info": "Dict[Val:Pair,Val:PairInfo]", "_default_pair_info": "Opt[Val:PairInfo]"})
 
 # --- backtesting: account balances --------------------------------------------------------------------------------
-REG.klass("UpdateRule", B + "backtesting.account_balances.UpdateRule", abstract=True)
+# ghost `account`: the AccountBalances the rule was pushed onto (rules judge a candidate against that account)
+REG.klass("UpdateRule", B + "backtesting.account_balances.UpdateRule", abstract=True, ghost={"account": "AccountBalances"})
 REG.klass("NonZero", B + "backtesting.account_balances.NonZero", bases=["UpdateRule"])
 REG.klass("ValidHold", B + "backtesting.account_balances.ValidHold", bases=["UpdateRule"])
 REG.klass("AccountBalances", B + "backtesting.account_balances.AccountBalances",
@@ -100,6 +101,9 @@ REG.klass("MarginLoanConditions", B + "backtesting.lending.margin.MarginLoanCond
           fields={"interest_symbol": "Str", "interest_percentage": "Real", "interest_period": "TD",
                   "min_interest": "Real", "margin_requirement": "Real"})
 REG.klass("Loan", B + "backtesting.lending.base.Loan", abstract=True, bases=["ExchObj"],
+          # ghost: the loan asks for no separate collateral (true of MarginLoan, the only Loan in the repo); exactness of
+          # hold bookkeeping across several loans is proved for such loans only (no finite sums needed)
+          ghost={"no_collateral": "Bool"},
           fields={"_id": "Str", "_borrowed_symbol": "Str", "_borrowed_amount": "Real", "_is_open": "Bool",
                   "_created_at": "DT", "_paid_interest": "ValueMap"})
 REG.klass("MarginLoan", B + "backtesting.lending.margin.MarginLoan", bases=["Loan"],
@@ -112,7 +116,7 @@ REG.klass("LoanContainer", B + "backtesting.helpers.ExchangeObjectContainer", ba
 REG.klass("LendingCtx", B + "backtesting.lending.base.ExchangeContext",
           fields={"dispatcher": "BacktestingDispatcher", "account_balances": "AccountBalances", "prices": "Prices",
                   "config": "Config"})
-REG.klass("LendingStrategy", B + "backtesting.lending.base.LendingStrategy", abstract=True)
+REG.klass("LendingStrategy", B + "backtesting.lending.base.LendingStrategy", abstract=True, ghost={"no_collateral": "Bool"})
 REG.klass("NoLoans", B + "backtesting.lending.base.NoLoans", bases=["LendingStrategy"])
 REG.klass("LoanManager", B + "backtesting.loan_mgr.LoanManager",
           fields={"_loans": "LoanContainer", "_ctx": "LendingCtx", "_lending_strategy": "LendingStrategy",
